@@ -165,6 +165,12 @@ func buildBinary(race bool) string {
 	if race {
 		key += "-race"
 	}
+	// VERIF_COVER=1: development aid (./covreport.sh) - a build with statement
+	// counters for the library packages; every run dumps them into VSIM_COVDIR
+	cover := !race && os.Getenv("VERIF_COVER") != ""
+	if cover {
+		key += "-cover"
+	}
 	dir := filepath.Join(cacheRoot(), key)
 	bin := filepath.Join(dir, "vsim.test")
 	os.MkdirAll(cacheRoot(), 0755)
@@ -185,6 +191,8 @@ func buildBinary(race bool) string {
 	args := []string{filepath.Join(verifDir, "buildsim.sh"), bin + ".tmp"}
 	if race {
 		args = append(args, "race")
+	} else if cover {
+		args = append(args, "cover")
 	}
 	cmd := exec.Command("/bin/bash", args...)
 	cmd.Env = append(os.Environ(), fmt.Sprintf("VERIF_SCRATCH=/var/tmp/verif.%d", os.Getpid()))
